@@ -152,13 +152,13 @@ func TestZZVerifC04(t *testing.T) {
 		"PRNG-generated histories weighted to sessions, KV lock/unlock/set/delete/delete-tree, node/service/check register, deregister, status changes, node rename by ID, prepared queries bound to sessions and transactions mixing these verbs (incl. SessionDelete), applied through FSM.Apply. After EVERY command: invariant walker over kvs/sessions/session_checks/prepared-queries/nodes/checks, and a transition monitor that diffs the sessions table before/after the step, so a session ending by ANY path is caught. Lock/unlock FSM results are checked against the holder before the step. non-trivial = history in which >=2 distinct session-ending paths were observed, each with at least one held key; distinct by command log hash")
 	run.Assume("TTL expiry is exercised as the Session destroy command the leader's timer issues (session_ttl.go invalidateSession -> SessionDestroy raft command); the timer itself is not in the loop")
 	rng := core.NewRand(core.Seed())
-	nh := core.N(300, 6000)
+	nh := core.N(600, 6000)
 	ln := core.N(70, 90)
 	for h := 0; h < nh && run.Violations() < 40; h++ {
 		hr := rng.Fork(uint64(h))
 		g := gen.New(hr, gen.SessionWeights())
 		g.Focus = true
-		g.NodeNames = []string{"n1", "n2", "n1x"}
+		g.NodeNames = []string{"n1", "n2", "n1x", "Web-01"} // one mixed-case name: session/node indexes fold case
 		r := fsmkit.New(fsmkit.Opts{})
 		idx := uint64(4)
 		var log []string
